@@ -28,6 +28,7 @@ const (
 	KOpDone   = 2 // an operation finished (client parks before the next one)
 	KTaskDone = 3 // client finished its list; it does not park
 	KBlocked  = 4 // client is spinning on a shim lock held by somebody else
+	KHandoff  = 5 // client is about to complete a rendezvous on an unbuffered channel: the baton goes straight to its partner; the client does not park now (see WaitSend)
 )
 
 const MaxClients = 1024
@@ -55,7 +56,28 @@ var (
 	spawnQ     []int // ids handed out since the scheduler last looked
 	deadlocked bool  // set by the scheduler: nobody can make progress any more
 	childOver  bool  // a library goroutine ran past its step budget
+
+	// unbuffered channels and closed channels (see WaitSend)
+	recvReady  [MaxClients]chanWaiter // clients ready to receive on an unbuffered channel, in arrival order
+	nRecvReady int
+	committed  [MaxClients]bool       // a sender has committed itself to this receiver
+	closedCh   [maxClosed]uintptr     // channels the library has closed
+	keepCh     [maxClosed]interface{} // ... kept alive, so that their addresses are not reused
+	nClosed    int
+	handoffTo  int               // partner named by the last KHandoff
+	handoffs   int64             // rendezvous completed
+	savedPts   [MaxClients]int64 // per-operation counters of a client between a handoff and its re-entry
+	savedLimit [MaxClients]int64
 )
+
+// (fixed arrays and explicit loops: append, copy and maps go through runtime
+// helpers that report to the race detector whatever the caller's pragma says)
+const maxClosed = 8192
+
+type chanWaiter struct {
+	ch uintptr
+	id int
+}
 
 // childBudget bounds the steps of one goroutine started by the library.
 const childBudget = 200000000
@@ -166,6 +188,42 @@ func rawWrite(fd int, v uint64) {
 	}
 }
 
+// Tracing of baton traffic to stderr (development aid): ZZSIM_TRACE=1.
+var tracing = func() bool { v, ok := syscall.Getenv("ZZSIM_TRACE"); return ok && v != "" }()
+
+//go:norace
+func trace(tag string, a, b int) {
+	if !tracing {
+		return
+	}
+	var buf [96]byte
+	n := copy(buf[:], tag)
+	put := func(v int) {
+		buf[n] = ' '
+		n++
+		if v < 0 {
+			buf[n] = '-'
+			n++
+			v = -v
+		}
+		var t [20]byte
+		i := len(t)
+		for {
+			i--
+			t[i] = byte('0' + v%10)
+			v /= 10
+			if v == 0 {
+				break
+			}
+		}
+		n += copy(buf[n:], t[i:])
+	}
+	put(a)
+	put(b)
+	buf[n] = '\n'
+	syscall.Write(2, buf[:n+1])
+}
+
 //go:norace
 func fatal(msg string) {
 	syscall.Write(2, []byte(msg+"\n"))
@@ -193,6 +251,7 @@ func InitBaton(n int) {
 	freeIDs = freeIDs[:0]
 	spawnQ = spawnQ[:0]
 	deadlocked = false
+	resetChans()
 	baton = true
 }
 
@@ -253,7 +312,12 @@ func TakeSpawned() []int {
 // SetDeadlocked tells every client spinning in Blocked that waiting is futile.
 //
 //go:norace
-func SetDeadlocked(v bool) { deadlocked = v }
+func SetDeadlocked(v bool) {
+	deadlocked = v
+	if v {
+		trace("deadlocked", 0, 0)
+	}
+}
 
 //go:norace
 func ChildOverrun() bool { v := childOver; childOver = false; return v }
@@ -271,9 +335,11 @@ func GoCall(id int, fn interface{}, args ...interface{}) {
 		BeginOp(childBudget)
 		defer func() {
 			if r := recover(); r != nil {
-				if _, ok := r.(BudgetExceeded); !ok {
+				be, ok := r.(BudgetExceeded)
+				if !ok {
 					panic(r)
 				}
+				trace("child-budget", id, int(be.Limit))
 				noteChildOverrun()
 			}
 			Yield(KTaskDone)
@@ -338,6 +404,7 @@ func Yield(kind uint64) {
 	id := cur
 	savedPts, savedLimit := opPts, limit
 	countdown, syncYield = 0, false
+	trace("yield", id, int(kind))
 	rawWrite(schedW, uint64(id)<<8|kind)
 	if kind == KTaskDone {
 		return
@@ -376,25 +443,169 @@ func Blocked() {
 	Yield(KBlocked)
 }
 
-// WaitSend is inserted by the instrumenter before every channel send in the
-// library. Under the baton only one client runs at a time, so once the channel
-// has room the send that follows cannot block; while it has none the client
-// yields like one spinning on a lock (and a deadlock is detected the same,
-// exact way). Only buffered channels used between caller goroutines are
-// supported (semaphores, free lists).
-func WaitSend(ch interface{}) {
+// Channels. The instrumenter rewrites `ch <- v` into
+//
+//	{ zzh := zzsimrt.WaitSend(ch); ch <- v; zzsimrt.AfterSend(zzh) }
+//
+// puts zzsimrt.WaitRecv(ch) in front of every statement that receives from ch
+// (and around the implicit receives of a range over a channel), and
+// zzsimrt.Closing(ch) in front of close(ch).
+//
+// Buffered channel: under the baton only one client runs at a time, so once
+// the channel has room (an element, or has been closed) the real operation
+// that follows cannot block; until then the client yields like one spinning on
+// a lock, and a deadlock is detected the same, exact way.
+//
+// Unbuffered channel: a rendezvous. A receiver announces itself and yields
+// (blocked) until a sender has committed itself to it. A sender waits
+// (blocked) until a receiver has announced itself, commits to the one that
+// came first, and then does something no other operation does: it reports
+// KHandoff naming the receiver and, WITHOUT parking, walks into the real send.
+// Grant passes the baton straight to the receiver, whose real receive meets
+// the real send in the Go runtime (so the race detector sees the edge the
+// channel really makes); the receiver carries on with the baton, the sender
+// parks in AfterSend until it is granted again. Between the hand-off and that
+// park the sender executes nothing but the send itself.
+//
+// WaitSend returns the id to pass to AfterSend, or -1 if there is nothing to
+// re-enter.
+func WaitSend(ch interface{}) int {
 	v := reflect.ValueOf(ch)
 	if v.Kind() != reflect.Chan || v.IsNil() {
-		return
+		return -1
 	}
+	p := v.Pointer()
 	if v.Cap() == 0 {
-		fatal("zzsimrt: the library uses an unbuffered channel; the simulator must be extended before it can judge this tree")
+		if !BatonOn() {
+			return -1
+		}
+		SyncPoint()
+		for {
+			if chanClosed(p) {
+				return -1 // the real send panics, as it must
+			}
+			if r := takeReceiver(p); r >= 0 {
+				return handoff(r)
+			}
+			Blocked()
+		}
 	}
 	SyncPoint()
-	for v.Len() == v.Cap() {
+	for v.Len() == v.Cap() && !chanClosed(p) {
 		Blocked()
 	}
+	return -1
 }
+
+// AfterSend parks a sender that handed the baton to its receiver.
+//
+//go:norace
+func AfterSend(id int) {
+	if id < 0 {
+		return
+	}
+	v := rawRead(taskR[id])
+	trace("aftersend-wake", id, 0)
+	cur = id
+	opPts, limit = savedPts[id], savedLimit[id]
+	setSlice(int64(v))
+}
+
+//go:norace
+func handoff(r int) int {
+	id := cur
+	committed[r] = true
+	savedPts[id], savedLimit[id] = opPts, limit
+	countdown, syncYield = 0, false
+	handoffTo = r
+	handoffs++
+	trace("handoff", id, r)
+	rawWrite(schedW, uint64(id)<<8|KHandoff)
+	return id
+}
+
+//go:norace
+func takeReceiver(p uintptr) int {
+	for i := 0; i < nRecvReady; i++ {
+		if recvReady[i].ch == p {
+			id := recvReady[i].id
+			for j := i + 1; j < nRecvReady; j++ {
+				recvReady[j-1] = recvReady[j]
+			}
+			nRecvReady--
+			return id
+		}
+	}
+	return -1
+}
+
+//go:norace
+func addReceiver(p uintptr) int {
+	committed[cur] = false
+	if nRecvReady >= MaxClients {
+		fatal("zzsimrt: too many waiting receivers")
+	}
+	recvReady[nRecvReady] = chanWaiter{p, cur}
+	nRecvReady++
+	return cur
+}
+
+//go:norace
+func dropReceiver(p uintptr, id int) {
+	committed[id] = false
+	for i := 0; i < nRecvReady; i++ {
+		if recvReady[i].ch == p && recvReady[i].id == id {
+			for j := i + 1; j < nRecvReady; j++ {
+				recvReady[j-1] = recvReady[j]
+			}
+			nRecvReady--
+			return
+		}
+	}
+}
+
+//go:norace
+func isCommitted(id int) bool { return committed[id] }
+
+//go:norace
+func chanClosed(p uintptr) bool {
+	for i := 0; i < nClosed; i++ {
+		if closedCh[i] == p {
+			return true
+		}
+	}
+	return false
+}
+
+//go:norace
+func markClosed(p uintptr, ch interface{}) {
+	if chanClosed(p) {
+		return
+	}
+	if nClosed >= maxClosed {
+		fatal("zzsimrt: the library closed more channels in one session than the simulator keeps track of")
+	}
+	closedCh[nClosed] = p
+	keepCh[nClosed] = ch
+	nClosed++
+}
+
+//go:norace
+func resetChans() {
+	nRecvReady = 0
+	for i := range committed {
+		committed[i] = false
+	}
+	for i := 0; i < nClosed; i++ {
+		keepCh[i] = nil
+	}
+	nClosed = 0
+}
+
+// Handoffs reports how many rendezvous on unbuffered channels were completed.
+//
+//go:norace
+func Handoffs() int64 { return handoffs }
 
 // WaitRecv is the counterpart for channel receives.
 func WaitRecv(ch interface{}) {
@@ -402,12 +613,47 @@ func WaitRecv(ch interface{}) {
 	if v.Kind() != reflect.Chan || v.IsNil() {
 		return
 	}
+	p := v.Pointer()
 	if v.Cap() == 0 {
-		fatal("zzsimrt: the library uses an unbuffered channel; the simulator must be extended before it can judge this tree")
+		if !BatonOn() {
+			return
+		}
+		SyncPoint()
+		if chanClosed(p) {
+			return
+		}
+		me := addReceiver(p)
+		defer dropReceiver(p, me) // also when the wait ends in a budget panic
+		for !isCommitted(me) && !chanClosed(p) {
+			Blocked()
+		}
+		return
 	}
 	SyncPoint()
-	for v.Len() == 0 {
+	for v.Len() == 0 && !chanClosed(p) {
 		Blocked()
+	}
+}
+
+// Closing is inserted in front of close(ch): receivers waiting for ch stop waiting.
+func Closing(ch interface{}) {
+	v := reflect.ValueOf(ch)
+	if v.Kind() != reflect.Chan || v.IsNil() {
+		return
+	}
+	SyncPoint()
+	markClosed(v.Pointer(), ch)
+}
+
+// SelectCheck is inserted in front of every select of the library: the polling
+// loop that replaces a blocking select, and a select with a default clause,
+// cannot take part in the rendezvous protocol of unbuffered channels.
+func SelectCheck(chs ...interface{}) {
+	for _, ch := range chs {
+		v := reflect.ValueOf(ch)
+		if v.Kind() == reflect.Chan && !v.IsNil() && v.Cap() == 0 && BatonOn() {
+			fatal("zzsimrt: the library uses an unbuffered channel in a select; the simulator must be extended before it can judge this tree")
+		}
 	}
 }
 
@@ -419,9 +665,18 @@ func Grant(id int, slice int64) (who int, kind uint64) {
 	if slice < 0 && slice != UntilSync {
 		slice = 0
 	}
+	trace("grant", id, int(slice))
 	rawWrite(taskW[id], uint64(slice))
-	v := rawRead(schedR)
-	return int(v >> 8), v & 0xff
+	for {
+		v := rawRead(schedR)
+		who, kind = int(v>>8), v&0xff
+		if kind != KHandoff {
+			return who, kind
+		}
+		// a rendezvous: the partner runs next, whatever the schedule family
+		// would have chosen (who may differ from id from here on)
+		rawWrite(taskW[handoffTo], uint64(slice))
+	}
 }
 
 // BatonTopLevelOnly reports whether no library goroutine was ever started in
